@@ -2,6 +2,7 @@ package c02
 
 import (
 	"strings"
+	"time"
 	"testing"
 	"testing/synctest"
 )
@@ -11,6 +12,9 @@ import (
 func TestA_Scenarios(t *testing.T) {
 	v4wide29 := v4cfg{name: "s29", cidr: "10.0.0.0/29", gateway: "10.0.0.1", clients: 2, hostile: 2, fine: true, transport: []string{"direct"}}
 	v4wide30 := v4cfg{name: "s30-relay82", cidr: "10.0.0.0/30", gateway: "10.0.0.1", clients: 2, hostile: 2, fine: true, transport: []string{"relay82"}}
+	// lease time of an hour (much longer than an offer is held), B with a 7-octet hardware address
+	v4long30 := v4cfg{name: "s30-long", cidr: "10.0.0.0/30", gateway: "10.0.0.1", clients: 2, hostile: 2, fine: true, transport: []string{"direct"}, lease: time.Hour, hlens: []int{6, 7}}
+	v4long29 := v4cfg{name: "s29-long-relay82", cidr: "10.0.0.0/29", gateway: "10.0.0.1", clients: 2, hostile: 2, fine: true, transport: []string{"relay82"}, lease: time.Hour, hlens: []int{16, 6}}
 	v6na := v6cfg{name: "s-na126", addrPool: "2001:db8:1::/126", mode: "na", clients: 2, hostile: 1}
 	v6both := v6cfg{name: "s-both", addrPool: "2001:db8:1::/126", pdPool: "2001:db8:100::/47", pdLen: 48, mode: "both", clients: 2, hostile: 1}
 	type sc struct {
@@ -37,6 +41,16 @@ func TestA_Scenarios(t *testing.T) {
 		{v4factory(v4wide30), "A:DISCOVER A:REQ-SELECT T:lease+1ns T:tick B:DISCOVER A:REQ-RENEW"},
 		{v4factory(v4wide29), "A:DISCOVER A:REQ-SELECT A:RELEASE B:DISCOVER"},
 		{v4factory(v4wide29), "A:DISCOVER A:REQ-SELECT T:lease/2 A:REQ-RENEW T:lease/2 T:tick A:REQ-RENEW T:lease+1ns T:tick"},
+		// a lease holder sends DISCOVER again (reboot) and then stays silent while cleanup ticks pass and its lease stays
+		// valid; then the other client asks, the holder renews
+		{v4factory(v4long30), "A:DISCOVER A:REQ-SELECT A:DISCOVER T:3ticks B:DISCOVER B:REQ-SELECT A:REQ-RENEW"},
+		{v4factory(v4long29), "A:DISCOVER A:REQ-SELECT T:lease/2 A:DISCOVER T:tick T:tick T:tick X:CYCLE-DRR A:REQ-RENEW"},
+		{v4factory(v4long30), "B:DISCOVER B:REQ-SELECT T:3ticks B:DISCOVER T:3ticks T:tick A:REQ-FOREIGN B:REQ-REBOOT"},
+		// an offer that is never requested lapses (Ethernet and other hardware-address lengths, short and long leases)
+		{v4factory(v4long30), "B:DISCOVER T:lease+1ns T:tick"},
+		{v4factory(v4long29), "A:DISCOVER B:DISCOVER T:3ticks X:CYCLE-D T:lease+1ns T:tick"},
+		{v4factory(v4wide30), "A:DISCOVER T:lease+1ns T:tick"},
+		{v4factory(v4long30), "A:DISCOVER T:3ticks B:DISCOVER B:REQ-SELECT A:REQ-SELECT"},
 		{v6factory(v6na), "A:SOLICIT A:REQUEST A:DECLINE A:SOLICIT"},
 		{v6factory(v6na), "A:SOLICIT A:REQUEST A:DECLINE"},
 		{v6factory(v6na), "A:SOLICIT-RC T:valid+1ns"},
